@@ -240,17 +240,27 @@ def iterpath(obj, path=None):
 
         elif isinstance(varobj, list):
 
-            for i, item in enumerate(varobj):
-                index = '[{0}]'.format(i)
-                path.append(index)
+            for item in _iterpath_list(varobj, path):
+                yield item
 
-                yield (path, item)
+        path.pop()
 
-                if isinstance(item, collections.abc.Mapping):
-                    for descendant in iterpath(item, path):
-                        yield descendant
 
-                path.pop()
+def _iterpath_list(list_, path):
+    """Walk the elements of a list (and of lists nested directly in it)."""
+    for i, item in enumerate(list_):
+        index = '[{0}]'.format(i)
+        path.append(index)
+
+        yield (path, item)
+
+        if isinstance(item, collections.abc.Mapping):
+            for descendant in iterpath(item, path):
+                yield descendant
+
+        elif isinstance(item, list):
+            for descendant in _iterpath_list(item, path):
+                yield descendant
 
         path.pop()
 
